@@ -11,6 +11,7 @@ func init() {
 	verifRegister("VerifC13_KEncFloat", VerifC13_KEncFloat)
 	verifRegister("VerifC13_KEncInt", VerifC13_KEncInt)
 	verifRegister("VerifC13_KLoadNum", VerifC13_KLoadNum)
+	verifRegister("VerifC13_KLongNum", VerifC13_KLongNum)
 	verifRegister("VerifC13_KObjOrder", VerifC13_KObjOrder)
 }
 
@@ -360,4 +361,52 @@ func VerifC13_KObjOrder() {
 	v = loadNumber("10000000000000000000")
 	vAssert(v.Type == lisp.LFloat, "the canonical rendering of a float above 2^63 is read back as that float")
 	vCover("end")
+}
+
+// LONG number literals: up to 30 digits with a fraction point or exponent marker at ANY solver-chosen
+// offset (also far beyond the width of a lisp int), optional sign: a literal with a marker is never
+// classified as an integer and loads as the float strconv gives, never as json:integer-range-error;
+// a literal without one is an integer literal (exact when it fits, range error when it does not).
+func VerifC13_KLongNum() {
+	ndig := vConcInt(vndChoice("digits", 30)) + 1
+	pos := vConcInt(vndChoice("pos", 31)) // marker goes before digit index pos (>= 1)
+	vAssume(pos >= 1)
+	vAssume(pos <= ndig)
+	marker := []string{"", ".", "e", "E", "e-", ".0e+"}[vConcInt(vndChoice("marker", 6))]
+	neg := vndBool("neg")
+	digits := "123456789012345678901234567890"[:ndig]
+	text := digits[:pos]
+	if marker != "" {
+		vAssume(pos < ndig) // something follows the marker
+		tail := digits[pos:]
+		if marker != "." && len(tail) > 2 {
+			tail = tail[:2] // an exponent of at most two digits: the value stays a finite float
+		}
+		text += marker + tail
+	} else {
+		text = digits
+	}
+	if neg {
+		text = "-" + text
+	}
+	vObserve("text", text)
+	got := isJSONInteger(text)
+	v := loadNumber(text)
+	if marker != "" {
+		vAssert(!got, "a literal with a fraction or exponent is not written as an integer, wherever the marker sits")
+		vAssert(v.Type == lisp.LFloat || (v.Type == lisp.LError && v.Str != "json:integer-range-error"), "and loads as a float (never an integer range error): "+v.String())
+		if marker == "." || marker == "e-" {
+			vAssert(v.Type == lisp.LFloat, "a fraction or a negative exponent is always a finite float")
+		}
+		vCover("float")
+		return
+	}
+	vAssert(got, "a literal of digits only is written as an integer")
+	if ndig <= 18 {
+		vAssert(v.Type == lisp.LInt, "an integer literal that fits is an int")
+		vCover("int")
+	} else if ndig >= 20 {
+		vAssert(v.Type == lisp.LError && v.Str == "json:integer-range-error", "an integer literal that does not fit signals json:integer-range-error instead of rounding: "+v.String())
+		vCover("range")
+	}
 }
